@@ -711,6 +711,9 @@ func (a *a23) recursionConsumes(r *Run) {
 		}
 		return false
 	}
+	// helpers that consume input on every path to their return (e.g. "read the head byte and
+	// split it") count as consuming reads: least fixpoint over the package's functions
+	mustConsume := map[*ssa.Function]bool{}
 	consumes := func(in ssa.Instruction) bool {
 		cc := callCommon(in)
 		if cc == nil {
@@ -719,10 +722,29 @@ func (a *a23) recursionConsumes(r *Run) {
 		if isCallTo(cc, "(*bufio.Reader).ReadByte") {
 			return true
 		}
-		if sc := staticCallee(cc); sc != nil && inPkg[sc] && (canonFn(sc) == "readByte" || canonFn(sc) == "readNBytes") {
+		if sc := staticCallee(cc); sc != nil && inPkg[sc] && (canonFn(sc) == "readByte" || canonFn(sc) == "readNBytes" || mustConsume[sc]) {
 			return true
 		}
 		return false
+	}
+	for changed := true; changed; {
+		changed = false
+		for _, g := range a.fns {
+			if mustConsume[g] || g.Blocks == nil {
+				continue
+			}
+			escapes, _ := pathExists(g, nil, isReturn, consumes, nil)
+			hasRet := false
+			eachInstr(g, func(b *ssa.BasicBlock, i int, in ssa.Instruction) {
+				if isReturn(in) {
+					hasRet = true
+				}
+			})
+			if !escapes && hasRet {
+				mustConsume[g] = true
+				changed = true
+			}
+		}
 	}
 	// edges whose call site is NOT preceded by a consuming read on every path
 	free := map[*ssa.Function]map[*ssa.Function]ssa.Instruction{}
@@ -846,9 +868,9 @@ func minConst(v ssa.Value, depth int) int64 {
 // ---- termination: loops bounded by an input-derived count consume input in every iteration ----
 
 type consumeInfo struct {
-	a      *a23
-	inPkg  map[*ssa.Function]bool
-	memo   map[*ssa.Function]int // 1 always consumes (or panics), 2 not
+	a     *a23
+	inPkg map[*ssa.Function]bool
+	memo  map[*ssa.Function]int // 1 always consumes (or panics), 2 not
 }
 
 func (ci *consumeInfo) consumingInstr(in ssa.Instruction) bool {
